@@ -9,6 +9,7 @@ drv_proto, ledger ops (C08; not verified, exercised on every line):
 tokens (<x> = A | B):
   i<x>s  i<x>a        issue sync / async          f<x>             `_async_request` whose send raises
   w<x><seq>           await                       d<x>             deliver (serve one message)
+  D<x>                deliver a response whose payload this side cannot decode
   F<x><o>:<val>       finish; <o> = v value, r ref, x raise, u undecodableArgs, e unencodableResult,
                       p unserializableExc, b raiseBase (a BaseException that is not an Exception), l raiseLocal
                       (SystemExit / KeyboardInterrupt with its propagate_*_locally switch on)
@@ -46,6 +47,7 @@ def parseLedgerEv (tok : String) : Option Ev :=
   | ['i', x, 'a'] => (parseSide x).map (fun x => ⟨x, .issue .async⟩)
   | ['f', x] => (parseSide x).map (fun x => ⟨x, .issueFail⟩)
   | ['d', x] => (parseSide x).map (fun x => ⟨x, .deliver⟩)
+  | ['D', x] => (parseSide x).map (fun x => ⟨x, .deliverFail⟩)
   | 'w' :: x :: cs => match parseSide x, parseNatChars cs with
     | some x, some s => some ⟨x, .await s⟩
     | _, _ => none
@@ -94,7 +96,9 @@ def showSideSt (name : String) (s : SideSt) : String :=
     ++ " exec=" ++ commas (s.executed.map toString)
     ++ " ans=" ++ commas (s.answered.map showEntry)
     ++ " aband=" ++ commas (s.abandoned.map toString)
-    ++ " res=" ++ commas (s.results.map showEntry)
+    ++ " res=" ++ commas (s.results.map (fun e =>
+          -- (a response that could not be decoded reaches its waiter as an exception)
+          if s.undecodable.contains e.1 then toString e.1 ++ "X0" else showEntry e))
     ++ " drop=" ++ commas (s.dropped.map toString)
     ++ " dead=" ++ (if s.dead then "T" else "F") ++ "]"
 
